@@ -2,7 +2,7 @@
 
 Parent:   mjxshard.run(ck, 'c43', nshards)   -> spawns `python -m vf.mjxshard c43 <tier> <seed> <i> <n> <out.json>`
 Child :   imports checks.<mod>, builds a private runner.Check, calls mod.shard_main(ck_child, i, n), dumps its counters.
-The parent merges evaluations, distinct non-trivial digests, samples, labels, discards, extra and violations.
+The parent merges evaluations, distinct non-trivial digests, samples, labels, discards, extra, violations and known-finding hits.
 A worker that dies from a signal (XLA:CPU code generation bugs do that, see vf/mjxload.py) is recorded as discard
 'shard-died' - the code under test is python, it cannot segfault by itself; if every worker dies it is a harness error.
 """
@@ -61,6 +61,9 @@ def run(ck, mod, nshards, timeout=3600):
     for b, msg, path in r['violations']:
       if not any(v[0] == b for v in ck.violations):
         ck.violations.append((b, msg, path))
+    for fp, what in r.get('known_hits', []):
+      if fp not in [k[0] for k in ck.known_hits]:
+        ck.known_hits.append((fp, what))      # the worker already printed the KNOWN-FINDING line
     for k, v in r['extra'].items():
       merged_extra.setdefault(k, []).append(v)
   if died == nshards:
@@ -101,7 +104,8 @@ def _child(argv):
   except Exception:
     res['harness_error'] = traceback.format_exc()[-3000:]
   res.update(evaluations=ck.evaluations, nontrivial=sorted(ck.nontrivial), samples=ck.samples, labels=dict(ck.labels),
-             discards=dict(ck.discards), violations=[list(v) for v in ck.violations], extra=runner._jsonable(ck.extra))
+             discards=dict(ck.discards), violations=[list(v) for v in ck.violations], extra=runner._jsonable(ck.extra),
+             known_hits=[list(k) for k in ck.known_hits])
   tmp = out + '.tmp'
   with open(tmp, 'w') as f:
     json.dump(res, f)
